@@ -34,7 +34,7 @@ EXPLANATION = (
     "contents and buffers are Unknown, callees at the boundary of the function are hooked and recorded as "
     "events, every path is enumerated). (7) tag bytes built by OR-ing shifted fields (Snappy / LZ4 "
     "elements, RLE run headers, Thrift field and list headers) hold every field value the guards on the "
-    "path admit. (8) carquet_page_writer_add_values followed by carquet_page_writer_num_values, executed with the encoders hooked over NULL / value mixes: the pending count is the number of level entries handed in, so a page of NULLs only is flushed and counted like any other. (R46) a decode or encode buffer that is grown because a page does not fit is grown to at least the page (a later, larger page is a second use): the capacity stored in a `request > capacity` branch is the request, an expression every arm of which contains it, or a value the branch compares with it (clamp or doubling loop) - geometric growth alone serves the first request and under-allocates a later one above twice the capacity. Decides these clauses, not value/null-position equality (the "
+    "path admit. (8) carquet_page_writer_add_values followed by carquet_page_writer_num_values, executed with the encoders hooked over NULL / value mixes: the pending count is the number of level entries handed in, so a page of NULLs only is flushed and counted like any other. (R46) a decode or encode buffer that is grown because a page does not fit is grown to at least the page (a later, larger page is a second use): the capacity stored in a `request > capacity` branch is the request, an expression every arm of which contains it, or a value the branch compares with it (clamp or doubling loop) - geometric growth alone serves the first request and under-allocates a later one above twice the capacity. (10) what the reader's built-in Snappy and LZ4 decompressors return for valid streams built from the format documents is what the formats define (rule shared with C10): a page the writer compressed is only as readable as its decompressor is right on every element form, not just on the forms carquet's own compressors emit today. Decides these clauses, not value/null-position equality (the "
     "multi-batch level layout is a known value-level limitation described in DESIGN.md).")
 
 PW = "src/writer/page_writer.c"
@@ -50,6 +50,9 @@ TYPES = {"CARQUET_PHYSICAL_BOOLEAN": "boolean", "CARQUET_PHYSICAL_INT32": "int32
 
 def run(ctx):
     P = ctx.P
+    ctx.clause("C01.10 the built-in block decompressors return what the formats define for valid format-built streams (rule shared with C10)")
+    from ..rules import blockfmt
+    ctx.floor("C01 format-built streams through the block decompressors", blockfmt.check(ctx, valid_only=True), 60)
     ctx.clause("C01.9 a decode or encode buffer that is grown because a page does not fit is grown to at least the page (a later, larger page is a second use) (R46)")
     from ..rules import growth
     ngr = growth.check(ctx, [f for f in P.lib_functions() if P.rel(f.file).startswith(("src/reader/", "src/writer/", "src/core/", "src/encoding/",))])
